@@ -69,6 +69,15 @@ var simBotKinds = map[byte]func(i int) simBotSpec{
 				}
 			}}
 	},
+	'B': func(i int) simBotSpec { // eBGP, ADD-PATH receiver with room for four paths per prefix
+		return simBotSpec{Name: fmt.Sprintf("B%d", i), IP: [4]byte{10, 0, 0, byte(1 + i)}, AS: uint32(65001 + i), RouterID: [4]byte{1, 1, 1, byte(1 + i)},
+			AddPath: map[bgp.Family]bgp.BGPAddPathMode{bgp.RF_IPv4_UC: bgp.BGP_ADD_PATH_RECEIVE},
+			Neighbor: func(n *oc.Neighbor) {
+				for j := range n.AfiSafis {
+					n.AfiSafis[j].AddPaths.Config.SendMax = 4
+				}
+			}}
+	},
 	'6': func(i int) simBotSpec { // eBGP with IPv4+IPv6 unicast
 		return simBotSpec{Name: fmt.Sprintf("v%d", i), IP: [4]byte{10, 0, 0, byte(1 + i)}, AS: uint32(65001 + i), RouterID: [4]byte{1, 1, 1, byte(1 + i)},
 			Families: []bgp.Family{bgp.RF_IPv4_UC, bgp.RF_IPv6_UC}}
@@ -85,6 +94,8 @@ type simRoutesScenario struct {
 	noPeers bool
 	noDrain bool // teardown without force-draining the peers' queues (C20 leak oracle)
 	pfxs    []string // prefix alphabet (default simPrefixes)
+	vmap    string   // if set: digit i is the only route variant bot i announces
+	noWd    bool     // no withdrawals in the alphabet
 	maxPfx  int    // if >0: bot 0's neighbour is configured with this prefix limit (per family)
 	src     string // if set: only the bots whose index digit occurs here announce / withdraw
 	flap    string // if set: only the bots whose index digit occurs here go down / up
@@ -124,6 +135,10 @@ func init() {
 				sc.noPeers = true
 			case "nodrain":
 				sc.noDrain = true
+			case "vmap":
+				sc.vmap = v
+			case "nowd":
+				sc.noWd = true
 			case "collide":
 				sc.pfxs = simCollidingPrefixes
 				sc.npfx = 2
@@ -225,9 +240,14 @@ func (sc *simRoutesScenario) Enabled(w *simWorld) []simEvent {
 					continue
 				}
 				for v := 0; v < sc.nvar; v++ {
+					if i < len(sc.vmap) && int(sc.vmap[i]-'0') != v {
+						continue
+					}
 					ev = append(ev, simEvent{Op: "ann", Bot: i, A: pf, B: v})
 				}
-				ev = append(ev, simEvent{Op: "wd", Bot: i, A: pf})
+				if !sc.noWd {
+					ev = append(ev, simEvent{Op: "wd", Bot: i, A: pf})
+				}
 				if b.spec.AddPath[bgp.RF_IPv4_UC]&bgp.BGP_ADD_PATH_SEND != 0 && !strings.Contains(sc.prefix(pf), ":") {
 					// a second path-id for the same prefix
 					ev = append(ev, simEvent{Op: "ann", Bot: i, A: pf, B: 1, C: 2})
